@@ -222,24 +222,48 @@ def run_impl(descr) -> Dict[str, Any]:
     out: Dict[str, Any] = {}
     try:
         Base.metadata.create_all(engine)
-        with Session(engine) as s1:
-            d = to_dao(root)
-            s1.add(d)
-            s1.commit()
-            pk = d.database_id
-            dao_cls = type(d)
+        multi = isinstance(root, c04._Holder)
+        if multi:
+            # several roots persisted through ONE ToDAOState, reloaded in a new Session and converted with ONE explicitly
+            # created, still empty FromDAOState (the holder is a harness object and is not persisted)
+            from krrood.ormatic.dao import ToDAOState, FromDAOState
+            with Session(engine) as s1:
+                ts = ToDAOState()
+                daos = [to_dao(o, ts) for o in root.items]
+                s1.add_all(daos)
+                s1.commit()
+                keys = [(type(d), d.database_id) for d in daos]
+        else:
+            with Session(engine) as s1:
+                d = to_dao(root)
+                s1.add(d)
+                s1.commit()
+                pk = d.database_id
+                dao_cls = type(d)
         with engine.connect() as con:
             out["table_counts"] = {cid: con.execute(text(f'SELECT count(*) FROM "{tn}"')).scalar() for cid, tn in sc["tables"].items()}
             out["assoc_counts"] = {t: con.execute(text(f'SELECT count(*) FROM "{tn}"')).scalar() for t, tn in sc["assoc"].items()}
-        chain = [c for c in dao_cls.__mro__ if isinstance(c, type) and issubclass(c, Base) and c is not Base]
         backs = []
-        for cls in chain:
-            with Session(engine) as s2:       # a NEW session: nothing comes from an identity map
-                row = s2.get(cls, pk)
-                if row is None:
-                    out["exc"] = f"Session.get({cls.__name__}, {pk}) returned None"
-                    return out
-                backs.append((cls.__name__, row.from_dao()))
+        if multi:
+            def chain_of(c):
+                return [x for x in c.__mro__ if isinstance(x, type) and issubclass(x, Base) and x is not Base]
+            for name, pick in (("own classes", lambda c: c), ("root classes of the hierarchies", lambda c: chain_of(c)[-1])):
+                with Session(engine) as s2:   # a NEW session; its identity map makes one row one DAO, also across the roots
+                    rows = [s2.get(pick(c), k) for c, k in keys]
+                    if any(r is None for r in rows):
+                        out["exc"] = f"Session.get returned None for a root ({name})"
+                        return out
+                    fs = FromDAOState()
+                    backs.append((name, c04._Holder([r.from_dao(fs) for r in rows])))
+        else:
+            chain = [c for c in dao_cls.__mro__ if isinstance(c, type) and issubclass(c, Base) and c is not Base]
+            for cls in chain:
+                with Session(engine) as s2:       # a NEW session: nothing comes from an identity map
+                    row = s2.get(cls, pk)
+                    if row is None:
+                        out["exc"] = f"Session.get({cls.__name__}, {pk}) returned None"
+                        return out
+                    backs.append((cls.__name__, row.from_dao()))
         own = backs[0][1]
         heap, r, anomalies = c04.dump(own, reverse=True)
         out.update(heap=heap, root=r, anomalies=anomalies, py_iso=c04.py_iso(root, own), via=[n for n, _ in backs], _back=own)
@@ -486,7 +510,7 @@ def _worker_main(argv) -> int:
     for i, (dsc, org) in enumerate(todo):
         if dsc is None:
             dsc = c04.gen_graph(rng.fork(i + 1), 10) if prop == "C04" else gen_graph(rng.fork(i + 1), 10)
-            if prop == "C04" and i % 4 == 3:     # several roots converted one by one with shared states
+            if i % 4 == 3:     # several roots converted (C05: persisted, reloaded and converted) with shared states
                 dsc = c04.make_multi(rng.fork(5000 + i), dsc)
         m = one(dsc, org)
         if failing(m) and shrunk < 3 and not replay:
@@ -515,7 +539,7 @@ def prepare_case(d: dict, org: str, sc, model_ok: bool) -> Dict[str, Any]:
     heap, r, anom = c04.input_heap(d)
     m = {"descr": d, "origin": org, "ft": ft, "res": res, "anomalies": anom, "expr": None,
          "nroot": None if "exc" in res else sum(v for t, v in res["table_counts"].items() if t not in sc["parent"]),
-         "root_class": d["objs"][d["root"]]["c"]}
+         "root_class": d["objs"][d["root"]]["c"], "nobj": ft["n"] - (1 if c04.is_multi(d) else 0)}
     if "exc" not in res and ft["altbase_objs"] >= 2 and (res["chain_disagree"] or res["py_iso"] is not None):
         # matcher of finding C04-c: every loaded graph equals the input up to parent-provided scalars of ALTBASE objects
         m["altbase_relaxed_ok"] = all(c04.py_iso(res["_root"], b, relax_altbase=True) is None for b in res["_backs"])
@@ -525,7 +549,8 @@ def prepare_case(d: dict, org: str, sc, model_ok: bool) -> Dict[str, Any]:
         counts = core.sx([[res["table_counts"][t] for t in tables], [res["assoc_counts"][t] for t in tags]])
         a_in = f"{c04.heap_term(heap5(heap))} {r}%nat"
         a_out = f"{c04.heap_term(heap5(res['heap']))} {res['root']}%nat"
-        m["expr"] = (f"case_code5 {schema_term(sc)} {c04.alts_ab()} {zl(tables)} {zl(tags)} {a_in} {a_out} ({counts})" if model_ok
+        fn5 = "case_code5_multi" if c04.is_multi(d) else "case_code5"
+        m["expr"] = (f"{fn5} {schema_term(sc)} {c04.alts_ab()} {zl(tables)} {zl(tags)} {a_in} {a_out} ({counts})" if model_ok
                      else f"case_code_spec {a_in} {a_out}")
         m["table_counts_nz"] = {str(k): v for k, v in res["table_counts"].items() if v}
     return m
@@ -549,8 +574,8 @@ def decide(rep: Report, m: Dict[str, Any], v, model_ok: bool, inst: Dict[str, in
     if (code in (0, 1)) != (res["py_iso"] is None):
         rep.oblige("harness:comparators", False, f"{m['origin']}: canon says {'equal' if code in (0, 1) else 'different'}, python bisimulation says {res['py_iso']}")
     # (c) exactly one root row per object
-    if m["nroot"] != ft["n"]:
-        bad.append((m, f"{m['nroot']} rows in the root tables for {ft['n']} objects"))
+    if m["nroot"] != m.get("nobj", ft["n"]):
+        bad.append((m, f"{m['nroot']} rows in the root tables for {m.get('nobj', ft['n'])} objects"))
         return
     # (d) loading through the other classes of the chain
     if res["chain_disagree"]:
@@ -599,6 +624,7 @@ DIST_KEYS = (("ownhier_single_refs>0", "ownhier_single_refs"), ("ownhier_shared_
 
 def tally(dist, m):
     ft = m["ft"]
+    dist["multi_root"] = dist.get("multi_root", 0) + (1 if m["root_class"] == "_Holder" else 0)
     dist["n"][ft["n"]] = dist["n"].get(ft["n"], 0) + 1
     dist["root_class"][m["root_class"]] = dist["root_class"].get(m["root_class"], 0) + 1
     for k, key in DIST_KEYS:
@@ -674,7 +700,10 @@ def run(tier: str, seed: int, replay=None) -> int:
         ncases = 300 if tier == "quick" else 4000
         nmodels, per_model = (6, 30) if tier == "quick" else (24, 120)
         for i in range(ncases):
-            descrs.append(gen_graph(rng.fork(i), 10 if tier == "quick" or i % 4 else 16))
+            g = gen_graph(rng.fork(i), 10 if tier == "quick" or i % 4 else 16)
+            if i % 5 == 4:     # several roots, ONE ToDAOState, reloaded and converted with ONE explicitly created FromDAOState
+                g = c04.make_multi(rng.fork(1000000 + i), g)
+            descrs.append(g)
             origin.append(f"gen:{i}")
 
     # generated models: workers run while the dataset cases are executed here
